@@ -24,13 +24,14 @@ Pepo12 == G("pepo12", "pepo", <<3, 2>>,       Chain(2))
 Gen4   == G("gen4",   "gen",  <<2, 3, 2, 2>>, TriTail)
 
 GeomsQuick    == <<Deep(Mps3, 2), Mpsc3, Deep(Mpo2, 2), Peps22, Pepo12, Gen4>>
-GeomsThorough == <<Mps3, Mps4, Mpsc3, Mpsc4, Mpo2, Mpo3, Peps22, Pepo12, Gen4>>
+GeomsThorough == <<Deep(Mps3, 3), Mps4, Mpsc3, Mpsc4, Deep(Mpo2, 3), Mpo3, Peps22, Pepo12, Gen4>>
 GeomsSim      == <<Mps3, Mps4, Mpsc3, Mpsc4, Mpo2, Mpo3, Peps22, Peps23, Pepo12, Pepo22, Gen4>>
 Gids13 == {1, 3}
 Gids123 == {1, 2, 3}
 OpsN == {"N"}
 OpsNH == {"N", "H"}
-GeomsOne      == <<Mps3>>
+GeomsCover    == <<Mps3, Mpo2>>
+Gids1 == {1}
 GeomsSwap     == <<Mps4>>
 GeomsMpo      == <<Mpo3>>
 GeomsMpo2     == <<Mpo2>>
